@@ -134,6 +134,34 @@ fn clone_access(r: &mut Rep) {
     }
 }
 
+/// equality over ALL pairs of port numbers (2^32 comparisons per type, sharded by the first operand): equal exactly when the
+/// numbers are equal, `!=` its negation
+fn eq_all_pairs(r: &mut Rep, a: &Args) {
+    let mut bad: Option<(u16, u16)> = None;
+    let mut n = 0u64;
+    let stride = if a.thorough() { 1 } else { 4 }; // quick: every fourth first operand per shard plus the port alphabet below
+    for x in (0..=u16::MAX).filter(|x| *x as usize % a.nshards == a.shard) {
+        if !(x as usize / a.nshards % stride == 0 || x.count_ones() <= 2 || x.count_zeros() <= 2 || (0x20..0x100).contains(&x) || (0x3b0..0x400).contains(&x) || (0xcf8..0xd00).contains(&x)) {
+            continue;
+        }
+        let (p8, p16, p32) = (Port::<u8>::new(x), PortReadOnly::<u16>::new(x), PortWriteOnly::<u32>::new(x));
+        for y in 0..=u16::MAX {
+            let (q8, q16, q32) = (Port::<u8>::new(y), PortReadOnly::<u16>::new(y), PortWriteOnly::<u32>::new(y));
+            let e = x == y;
+            let p8 = std::hint::black_box(&p8);
+            if ((*p8 == q8) != e) | ((q8 == *p8) != e) | ((p16 == q16) != e) | ((p32 == q32) != e) | ((*p8 != q8) == e) | ((p16 != q16) == e) | ((p32 != q32) == e) {
+                bad.get_or_insert((x, y));
+            }
+        }
+        n += 65536;
+    }
+    r.evals += n;
+    r.transitions += n;
+    if let Some((x, y)) = bad {
+        r.viol("C18|PartialEq|not-equal-exactly-when-port-numbers-are-equal-(all-pairs-sweep)", &format!("porteq {} {}", x, y), "");
+    }
+}
+
 fn eq_clone(r: &mut Rep) {
     let mut set: Vec<u16> = vec![0, 1, 0xff, 0x100, 0x3f8, 0xcf8, 0xcfc, 0x7fff, 0x8000, 0xfffe, 0xffff];
     for b in 0..16 {
@@ -650,6 +678,13 @@ pub fn run(a: &Args) {
             value_sweep(&mut r, t[1].parse().unwrap(), t[2].parse().unwrap());
         } else if t[0] == "portseq" {
             sequences(&mut r, t[1].parse().unwrap(), t[4] == "true");
+        } else if t[0] == "porteq" && t.len() >= 3 {
+            let (x, y): (u16, u16) = (t[1].parse().unwrap(), t[2].parse().unwrap());
+            r.ev(true);
+            if (Port::<u8>::new(x) == Port::<u8>::new(y)) != (x == y) || (PortReadOnly::<u16>::new(x) == PortReadOnly::<u16>::new(y)) != (x == y) || (PortWriteOnly::<u32>::new(x) == PortWriteOnly::<u32>::new(y)) != (x == y) || (Port::<u8>::new(x) != Port::<u8>::new(y)) == (x == y) {
+                r.viol("C18|PartialEq|not-equal-exactly-when-port-numbers-are-equal-(all-pairs-sweep)", &format!("porteq {} {}", x, y), "");
+            }
+            eq_clone(&mut r);
         } else {
             eq_clone(&mut r);
         }
@@ -692,6 +727,7 @@ pub fn run(a: &Args) {
             guarded(&mut r, "C18|Port|unexpected-panic", || format!("portseq {} 8 reads true", p), |r| sequences(r, p, true));
         }
     }
+    guarded(&mut r, "C18|PartialEq|unexpected-panic", || "porteqall".into(), |r| eq_all_pairs(r, a));
     if a.shard == 0 {
         guarded(&mut r, "C18|PartialEq/Clone|unexpected-panic", || "porteq".into(), |r| eq_clone(r));
         guarded(&mut r, "C18|Clone|unexpected-panic", || "portcloneaccess".into(), |r| clone_access(r));
